@@ -1,12 +1,12 @@
 #!/bin/bash
 # seed_check.sh <patch.diff> <PROP> [tier]: run a check against /repo HEAD + patch in a scratch worktree
-# (never touches /repo's working tree); prints the check's verdict lines.
+# (never touches /repo's working tree); prints the check's verdict lines. SEED_PART=<name> restricts the run to one part.
 PATCH=$1; P=$2; TIER=${3:-quick}
 WT=$(mktemp -d /tmp/chk-XXXXXX); rmdir $WT
 git -C /repo worktree add -q --detach $WT HEAD || exit 2
 if ! git -C $WT apply $PATCH; then echo "SEED-CHECK: patch does not apply to current HEAD"; git -C /repo worktree remove --force $WT; exit 3; fi
 ED=$(mktemp -d /tmp/chk-ev-XXXXXX)
-VERIF_REPO=$WT VERIF_EVIDENCE_DIR=$ED VERIF_REPLAY_DIR=$ED python3 /verif/check.py $P --tier $TIER 2>&1 | tail -${SEED_TAIL:-8}
+VERIF_REPO=$WT VERIF_EVIDENCE_DIR=$ED VERIF_REPLAY_DIR=$ED python3 /verif/check.py $P --tier $TIER ${SEED_PART:+--part $SEED_PART} 2>&1 | tail -${SEED_TAIL:-8}
 rc=${PIPESTATUS[0]}
 [ -n "$SEED_KEEP_REPLAYS" ] && { mkdir -p $SEED_KEEP_REPLAYS; cp -r $ED/. $SEED_KEEP_REPLAYS/; }
 git -C /repo worktree remove --force $WT; rm -rf $ED
